@@ -343,6 +343,24 @@ theorem mapper_hit_reads_path (u : Ucd) (rs : List Route) (raw : Option Pyr.Trav
   obtain ⟨p, r, hp, hr, hm, _, _⟩ := (mapper_first u rs raw i e).mp h
   exact ⟨p, r, hp, hr, match_sound u r.toks p e hm⟩
 
+/-- **The selected route's match dictionary is its own.**  It is what that route's pattern reads off the path and
+nothing else: it does not depend on which other routes are declared, on their patterns (identical to this one's or not),
+on their predicates or on the order in which anything was evaluated.  Two dispatches — different route lists, different
+positions — that select routes with the same tokens for the same path return the same dictionary. -/
+theorem selected_dict_is_own_match (u : Ucd) (rs rs' : List Route) (raw : Option Pyr.Trav.Bytes) (i j : Nat) (e e' : Env)
+    (h : mapperCall u rs raw = .hit i e) (h' : mapperCall u rs' raw = .hit j e') :
+    (∃ p r, requestPath raw = some p ∧ rs[i]? = some r ∧ matchToks u r.toks p = some e) ∧
+    (∀ r r', rs[i]? = some r → rs'[j]? = some r' → r.toks = r'.toks → e = e') := by
+  obtain ⟨p, r, hp, hr, hm, _, _⟩ := (mapper_first u rs raw i e).mp h
+  obtain ⟨p', r', hp', hr', hm', _, _⟩ := (mapper_first u rs' raw j e').mp h'
+  refine ⟨⟨p, r, hp, hr, hm⟩, ?_⟩
+  intro r0 r0' h0 h0' ht
+  rw [hr] at h0; rw [hr'] at h0'
+  cases h0; cases h0'
+  rw [hp] at hp'; cases hp'
+  rw [ht, hm'] at hm
+  exact (Option.some.inj hm).symm
+
 /-- **Invalid UTF-8 is refused**, whatever routes are declared. -/
 theorem invalid_utf8_refused (u : Ucd) (rs : List Route) (raw : Pyr.Trav.Bytes) (h : utf8Dec raw = none) :
     mapperCall u rs (some raw) = .urlDecode := by
